@@ -226,11 +226,9 @@ def clause_validator_rows(R, F):
          "(no method that refuses on waiting_tx_count, by name or by behaviour)")
     if fn is None or fb is None:
         return
-    cl = [g for g in F.fns.values() if g.kind == "closure" and g.j.get("parent") == fn.id]
-    if not R.floor("validate_next_tx_closure", len(cl), 1):
-        return
-    g = cl[0]
-    eb = error_blocks(g)
+    # the comparison rows sit in the validator's body or in a closure it hands to a lock accessor
+    row_bodies = [fn] + [g for g in F.fns.values() if g.kind == "closure" and g.j.get("parent") == fn.id]
+    g = row_bodies[-1] if len(row_bodies) > 1 else fn
 
     def role(a):
         if mentions(a, "waiting_tx_count"):
@@ -252,10 +250,14 @@ def clause_validator_rows(R, F):
             return "block_hash"
         return None
     rows = {}
-    for (b, s, fm, line) in edge_forms(g):
-        r, k, rel, bad = fm.roles(role)
-        to_err = s in eb or _leads_to_error_only(g, s)
-        rows[(tuple(sorted(r.items())), k, rel)] = to_err
+    for gb in row_bodies:
+        ebb = error_blocks(gb)
+        for (b, s, fm, line) in edge_forms(gb):
+            r, k, rel, bad = fm.roles(role)
+            to_err = s in ebb or _leads_to_error_only(gb, s)
+            if r:
+                rows[(tuple(sorted(r.items())), k, rel)] = to_err
+    R.floor("validate_next_tx_rows", len(rows), 3)
     want = [
         ((("tx_idx", -1), ("waiting", 1)), 0, "!=", True, "waiting_tx_count != tx_idx => Err"),
         ((("info.timestamp", 1), ("timestamp", -1)), 0, "!=", True, "timestamp differs from the block's => Err"),
